@@ -591,6 +591,135 @@ theorem tls12_connection_exact_counterexample : ¬ tls12_connection_exact_statem
     simpa [Spec.reassemble] using this.symm
   exact absurd this (by decide)
 
+-- ---------------------------------------------------------------------- one TLS 1.3 connection, all hypotheses
+/-- the four traffic secrets of the connection -/
+def kl13 : List Keylog.Key :=
+  [⟨Keylog.s_CHTS, Keylog.hexOf (Pipeline.natsOfBytes cr0), Keylog.hexOf (List.replicate 32 1)⟩,
+   ⟨Keylog.s_SHTS, Keylog.hexOf (Pipeline.natsOfBytes cr0), Keylog.hexOf (List.replicate 32 2)⟩,
+   ⟨Keylog.s_CTS0, Keylog.hexOf (Pipeline.natsOfBytes cr0), Keylog.hexOf (List.replicate 32 3)⟩,
+   ⟨Keylog.s_STS0, Keylog.hexOf (Pipeline.natsOfBytes cr0), Keylog.hexOf (List.replicate 32 4)⟩]
+def ps13 : CipherSuite.Params := (CipherSuite.resolve (Bytes.beNat [0x13, 0x01])).getD []
+def a13 : Pipeline.SuiteArgs := (Pipeline.suiteArgs ps13).getD ⟨⟨.other, false, false, 0, .sha1⟩, .none, none⟩
+def secrets13 : List KeySchedule.Secret := (Pipeline.secretsOf true kl13).getD []
+def k13 : KeySchedule.Installed13 :=
+  match KeySchedule.generateKeys hashes .tls13 a13.ks secrets13 cr0 sr0 with
+  | .ok (some (.tls13 k)) => k
+  | _ => ⟨none, none, none, none, none, none, none, none, none, none, none, none⟩
+
+theorem gen_eq13 {ε : Type} (x : Except ε (Option KeySchedule.Installed)) (k : KeySchedule.Installed13)
+    (h : (match x with | .ok (some (.tls13 k')) => decide (k' = k) | _ => false) = true) :
+    x = .ok (some (.tls13 k)) := by
+  cases x with
+  | error e => simp at h
+  | ok o =>
+    cases o with
+    | none => simp at h
+    | some i =>
+      cases i with
+      | legacy _ => simp at h
+      | tls13 k' => simp only [decide_eq_true_eq] at h; rw [h]
+
+def x13 : Snd :=
+  ⟨SDir.init (k13.clientHsKey.getD []) (k13.clientHsIv.getD []) (k13.clientAppKey.getD []) (k13.clientAppIv.getD []),
+   SDir.init (k13.serverHsKey.getD []) (k13.serverHsIv.getD []) (k13.serverAppKey.getD []) (k13.serverAppIv.getD [])⟩
+def cls13 : CipherClass := .aead13 .aesgcm 16
+
+/-- ClientHello, ServerHello; the server: dummy CCS, EncryptedExtensions…Finished in one record (padded), a
+    NewSessionTicket (type 4) in the application epoch, 16 bytes; the client: dummy CCS, Finished, "hi" -/
+def t13 : Transcript :=
+  { ch := ch0, sh := sh13, rvC := [3, 1], rvS := [3, 3], ver := [3, 3],
+    cEvs := [.ccs, .hs13 [C01Pipeline.Ex.fin] ⟨[], [], [], 0⟩, .enc 23 hi ⟨[], [], [], 5⟩],
+    sEvs := [.ccs, .hs13 C01Pipeline.Ex.sflight ⟨[], [], [], 2⟩, .hs13 [(4, k24)] ⟨[], [], [], 0⟩,
+             .enc 23 k16 ⟨[], [], [], 3⟩] }
+
+def recs13 (d : Bool) : List Bytes := t13.records Cipher.Toy.prims Cipher.Toy.laws cls13 x13 d
+def qC (i : Nat) : Bytes := (recs13 false).getD i []
+def qS (i : Nat) : Bytes := (recs13 true).getD i []
+
+/-- the capture: the ServerHello segment ends in the middle of the server's Finished flight; the rest of the flight and
+    the ticket share a segment; the client's CCS and Finished share one -/
+def cap13 : List (Bool × Bytes × Nat) :=
+  [(false, qC 0, 0), (true, qS 0 ++ qS 1 ++ (qS 2).take 10, 0),
+   (true, (qS 2).drop 10 ++ qS 3, (qS 0).length + (qS 1).length + 10), (false, qC 1 ++ qC 2, (qC 0).length),
+   (false, qC 3, (qC 0).length + (qC 1).length + (qC 2).length),
+   (true, qS 4, (qS 0).length + (qS 1).length + (qS 2).length + (qS 3).length)]
+def pkts13 : List MainLoop.Pkt := (List.range cap13.length).map fun i =>
+  mkPkt (cap13.getD i (false, [], 0)).1 (cap13.getD i (false, [], 0)).2.1 i
+def info13 (tag : Nat) : Pipeline.Info :=
+  ⟨(isnOf (cap13.getD tag (false, [], 0)).1 + (cap13.getD tag (false, [], 0)).2.2) % 4294967296, 1000 + tag, [1], [2], false⟩
+def conn13 : Pipeline.Conn := ⟨⟨[443], false, false, false, true, []⟩, sEp, cEp, [2], [1], false, pkts13⟩
+def chunks13 (d : Bool) : List Bytes :=
+  if d then [qS 0 ++ qS 1 ++ (qS 2).take 10, (qS 2).drop 10 ++ qS 3, qS 4] else [qC 0, qC 1 ++ qC 2, qC 3]
+
+theorem delivered13 : DeliveredInOrder info13 conn13 (t13.stream Cipher.Toy.prims Cipher.Toy.laws cls13 x13) := by
+  intro d
+  cases d
+  · refine ⟨⟨isnOf false, ?_⟩, by decide +kernel⟩
+    have hcut : IsCut (t13.stream Cipher.Toy.prims Cipher.Toy.laws cls13 x13 false) (chunks13 false) :=
+      ⟨by decide +kernel, by decide +kernel⟩
+    have e2 : (dirSegs info13 conn13.server false conn13.pkts).map Props.C05.wire
+        = segsOf (isnOf false) 0 (chunks13 false) := by decide +kernel
+    unfold InOrder
+    rw [e2]; exact Delivers.cut _ hcut
+  · refine ⟨⟨isnOf true, ?_⟩, by decide +kernel⟩
+    have hcut : IsCut (t13.stream Cipher.Toy.prims Cipher.Toy.laws cls13 x13 true) (chunks13 true) :=
+      ⟨by decide +kernel, by decide +kernel⟩
+    have e2 : (dirSegs info13 conn13.server true conn13.pkts).map Props.C05.wire
+        = segsOf (isnOf true) 0 (chunks13 true) := by decide +kernel
+    unfold InOrder
+    rw [e2]; exact Delivers.cut _ hcut
+
+theorem causal13 : Causal13 (connRecs info13 conn13) :=
+  ⟨(connRecs info13 conn13).headD (⟨[], []⟩, false), ((connRecs info13 conn13).drop 1).headD (⟨[], []⟩, false),
+    (connRecs info13 conn13).drop 2, by decide +kernel, by decide +kernel, by decide +kernel⟩
+
+/-- every hypothesis of `tls13_connection_exact` holds for this connection — and so does its conclusion -/
+theorem tls13_instance :
+    ∃ frames, Pipeline.connOut hashes Cipher.Toy.prims info13 conn13 kl13
+        = some (frames.map (Pipeline.addressed conn13.opts conn13)) ∧
+      Spec.reassemble frames = some (hi, k16) ∧ TimesFromCarriers info13 conn13 frames := by
+  have hres : CipherSuite.resolve (Bytes.beNat t13.sh.cipherSuite) = some ps13 := by decide +kernel
+  have hargs : Pipeline.suiteArgs ps13 = some a13 := some_getD _ _ (by decide +kernel)
+  have hfound : Keylog.findSessionSecrets kl13 (Pipeline.natsOfBytes t13.ch.random)
+      = kl13.headD ⟨[], [], []⟩ :: kl13.tail := by decide +kernel
+  have hsec : Pipeline.secretsOf true (kl13.headD ⟨[], [], []⟩ :: kl13.tail) = some secrets13 := by decide +kernel
+  have hgen : KeySchedule.generateKeys hashes .tls13 a13.ks secrets13 t13.ch.random t13.sh.random
+      = .ok (some (.tls13 k13)) :=
+    gen_eq13 (KeySchedule.generateKeys hashes .tls13 a13.ks secrets13 cr0 sr0) k13 (by decide +kernel)
+  have hcls : classOf a13.bulk .tls13
+      (Session.extGet ((t13.sh.extensions.getD []).map extPair) [0x00, 0x16]).isSome a13.tagLen = some cls13 := by
+    decide +kernel
+  have hokc : ∀ e ∈ t13.cEvs, EvOk1 cls13 (KeySchedule.macSuite hashes a13.ks.mac).outLen e := by decide +kernel
+  have hoks : ∀ e ∈ t13.sEvs, EvOk1 cls13 (KeySchedule.macSuite hashes a13.ks.mac).outLen e := by decide +kernel
+  have hwr : ∀ d, ∀ r ∈ t13.records Cipher.Toy.prims Cipher.Toy.laws cls13 x13 d, WholeRecord r := by
+    intro d; cases d <;> decide +kernel
+  have hlen : budget13 t13 ≤ seqLimit := by decide +kernel
+  have hsc : Script13 t13.cEvs := by
+    intro e he
+    simp only [t13, List.mem_cons, List.mem_nil_iff, or_false] at he
+    rcases he with rfl | rfl | rfl
+    · exact Or.inl rfl
+    · exact Or.inr (Or.inl ⟨_, _, rfl⟩)
+    · exact Or.inr (Or.inr ⟨_, _, rfl⟩)
+  have hss : Script13 t13.sEvs := by
+    intro e he
+    simp only [t13, List.mem_cons, List.mem_nil_iff, or_false] at he
+    rcases he with rfl | rfl | rfl | rfl
+    · exact Or.inl rfl
+    · exact Or.inr (Or.inl ⟨_, _, rfl⟩)
+    · exact Or.inr (Or.inl ⟨_, _, rfl⟩)
+    · exact Or.inr (Or.inr ⟨_, _, rfl⟩)
+  have h := tls13_connection_exact hashes Cipher.Toy.prims Cipher.Toy.laws kl13 info13 conn13 rfl t13
+    (by decide) (by decide) rfl rfl rfl rfl (by unfold Negotiated; decide)
+    ps13 hres a13 hargs _ _ hfound secrets13 hsec k13 hgen
+    (k13.clientHsKey.getD []) (k13.clientHsIv.getD []) (k13.clientAppKey.getD []) (k13.clientAppIv.getD [])
+    (k13.serverHsKey.getD []) (k13.serverHsIv.getD []) (k13.serverAppKey.getD []) (k13.serverAppIv.getD [])
+    (by decide +kernel) cls13 hcls (by decide +kernel) (by decide +kernel) (by decide +kernel) (by decide +kernel)
+    hsc hss hokc hoks hwr hlen delivered13 causal13
+  have e : (Spec.TlsConnection.plainOf t13.cEvs, Spec.TlsConnection.plainOf t13.sEvs) = (hi, k16) := by decide
+  rw [e] at h
+  exact h
+
 -- … consistent with evaluating the model on the same packets
 example : view (Pipeline.connOut hashes Cipher.Toy.prims infoCap connCap kl0)
     = some [(1004, hi), (1006, k16.take 8), (1008, k16.drop 8)] := by decide +kernel
